@@ -68,15 +68,18 @@ theorem cidq_preferred_address_insert_ok (q : CidQueue) (hI : Inv q) (h0 : q.off
   · rw [h]
   · omega
 
-/-- the NEW_CONNECTION_ID arm over ALL sequences of decoded frames (any varints, any order) and packet
-    transmissions: never panics, keeps the ring invariant, and the queue of pending RETIRE_CONNECTION_ID frames is
-    at most `MAX_PENDING_RETIRED_CIDS + LEN - 1` plus the number of frames that named an already retired CID -/
-theorem ncid_handler_no_panic_bounded (s : Handler) (hI : Inv s.q) (hp : s.pending = []) (ops : List HOp)
+/-- the NEW_CONNECTION_ID arm over ALL sequences of decoded frames (any varints, any order, any repetition) and packet
+    transmissions: never panics, keeps the ring invariant, and the queue of pending RETIRE_CONNECTION_ID frames never
+    exceeds `MAX_PENDING_RETIRED_CIDS + LEN - 1` (`MAX_PENDING_RETIRED_CIDS` while the initial CID is active).
+    Both arms that queue retirements consult the limit (the already-retired arm since the fix recorded in
+    known_findings.txt; `corpus/cidq/retire-flood.ops` replays the old witness of unbounded growth). -/
+theorem retire_cids_bounded (s : Handler) (hI : Inv s.q) (hp : s.pending = []) (ops : List HOp)
     (hv : ∀ op ∈ ops, op.valid) :
-    ∃ s' d, hrun s 0 ops = some (s', d) ∧ Inv s'.q ∧
-      s'.pending.length ≤ Gen.maxPendingRetiredCids + (LEN - 1) + d := by
-  obtain ⟨s', d, h, hI', hJ⟩ := hrun_inv ops s 0 hI ⟨fun _ => by simp [hp], by simp [hp]⟩ hv
-  exact ⟨s', d, h, hI', hJ.2⟩
+    ∃ s', hrun s ops = some s' ∧ Inv s'.q ∧
+      s'.pending.length ≤ Gen.maxPendingRetiredCids + (LEN - 1) ∧
+      (s'.q.offset = 0 → s'.pending.length ≤ Gen.maxPendingRetiredCids) := by
+  obtain ⟨s', h, hI', hJ⟩ := hrun_inv ops s hI ⟨fun _ => by simp [hp], by simp [hp]⟩ hv
+  exact ⟨s', h, hI', hJ.2, hJ.1⟩
 
 /-- decision of the error class at the handler: which transport error (PROTOCOL_VIOLATION /
     CONNECTION_ID_LIMIT_ERROR) or acceptance a frame gets, exactly under the code's conditions -/
@@ -85,25 +88,12 @@ theorem ncid_decision (s : Handler) (hI : Inv s.q) (seq rpt : Nat) (cid tok : By
     (onNewConnectionId s seq rpt cid tok).2 = ncidSpec s a seq rpt cid tok :=
   onNewConnectionId_decision s hI seq rpt cid tok h2 a ha
 
-/-- FULL statement of `retire_cids_bounded`: some absolute bound on the pending RETIRE_CONNECTION_ID queue holds
-    for every sequence of valid frames -/
-def retire_cids_bounded_statement : Prop :=
-  ∃ N, ∀ (ops : List HOp), (∀ op ∈ ops, op.valid) →
-    ∀ s' d, hrun floodInit 0 ops = some (s', d) → s'.pending.length ≤ N
-
-/-- the code (hence the model) violates the full statement: the "already retired" path pushes without consulting
-    `MAX_PENDING_RETIRED_CIDS` (witness `retireCidsFlood`: retire CID 0, then repeat NEW_CONNECTION_ID for
-    sequence 0); growth is one entry per received frame, see `ncid_handler_no_panic_bounded` -/
-theorem retire_cids_bounded_counterexample : ¬ retire_cids_bounded_statement := by
-  intro ⟨N, h⟩
-  obtain ⟨s', d, hr, hl⟩ := retireCidsFlood_run N
-  have := h _ (retireCidsFlood_valid N) s' d hr
-  omega
-
 -- non-vacuity
 example : run (new [1]) [.insert 2 0 [2] [9], .insert 3 1 [3] [9], .next, .insert 3 1 [3] [9]] ≠ none := by decide
 example : (insert (new [1]) 1000000 1000000 [7] [9]).2 = .retired 0 5 [9] := by decide
 example : (insert (new [1]) 5 0 [7] [9]).2 = .errLimit := by decide
+-- the old flood: 60 repetitions of an already retired sequence number leave exactly MAX_PENDING_RETIRED_CIDS entries
+example : (hrun floodInit (retireCidsFlood 60)).map (·.pending.length) = some 50 := by decide
 
 end cidq
 
@@ -191,43 +181,27 @@ end cidstate
 section ackfreq
 open QM.AckFrequency
 
-/-- FULL statement `candidate_max_ack_delay_no_panic`: for every state reached from `new` by peer transport
-    parameters that `TransportParameters::read` accepts, every local config and every rtt, the clamp is well formed -/
-def candidate_max_ack_delay_no_panic_statement : Prop :=
-  ∀ (dflt maxAckDelayMs : Nat) (minAckDelayUs cfg : Option Nat) (rtt : Nat) (s : State) (e : Env),
-    setPeerParams (AckFrequency.new dflt) ⟨cfg, none, (1, 1)⟩ maxAckDelayMs minAckDelayUs = some (s, e) →
-    candidateMaxAckDelay s rtt e.cfgMaxAckDelay e.peerMinAckDelay ≠ none
+/-- `candidate_max_ack_delay` never panics: for EVERY state, rtt, local config and peer `min_ack_delay` (whatever
+    `TransportParameters::read` let through) the clamp is well formed, and the requested delay lies in
+    `[peer min_ack_delay, max(rtt, MIN_AUTOMATIC_ACK_DELAY, peer min_ack_delay)]`.
+    (DESIGN §7 F1 — a peer `min_ack_delay` above `max(rtt, 25 ms)` used to reach `clamp(min, max)` with min > max — is
+    fixed in quinn; `corpus/ackfreq/F1.ops` replays the old witness on every run.) -/
+theorem candidate_max_ack_delay_no_panic (s : State) (rtt : Nat) (cfg peerMin : Option Nat) :
+    ∃ d, candidateMaxAckDelay s rtt cfg peerMin = some d ∧
+      minAckDelayNs peerMin ≤ d ∧ d ≤ Gen.candidateUpper rtt (minAckDelayNs peerMin) :=
+  candidate_some s rtt cfg peerMin
 
-/-- F1 witness: the peer advertises max_ack_delay = 1000 ms and min_ack_delay = 500 000 µs (accepted by `read`);
-    rtt = 100 ms.  Op list: corpus/ackfreq/F1.ops -/
-def candidate_max_ack_delay_witness : Nat × Nat × Option Nat × Nat := (25000000, 1000, some 500000, 100000000)
+/-- the requested delay is the configured one (or the peer's current one) moved to the nearer end of that interval -/
+theorem candidate_max_ack_delay_value (s : State) (rtt : Nat) (cfg peerMin : Option Nat) :
+    candidateMaxAckDelay s rtt cfg peerMin =
+      some (min (max (match cfg with | some d => d | none => s.peerMaxAckDelay) (minAckDelayNs peerMin))
+        (Gen.candidateUpper rtt (minAckDelayNs peerMin))) :=
+  candidate_value s rtt cfg peerMin
 
-/-- DESIGN §7 F1, confirmed on the real code through the executor: `clamp(min, max)` is reached with min > max -/
-theorem candidate_max_ack_delay_counterexample : ¬ candidate_max_ack_delay_no_panic_statement := by
-  intro h
-  have := h 25000000 1000 (some 500000) none 100000000
-    { AckFrequency.new 25000000 with peerMaxAckDelay := 1000 * 1000 * 1000 } ⟨none, some 500000, (1, 1)⟩ (by decide)
-  exact this (by decide)
-
-/-- the exact guard: `candidate_max_ack_delay` panics if and only if the peer's `min_ack_delay` exceeds
-    `max(rtt, MIN_AUTOMATIC_ACK_DELAY)`; in particular no panic under `peer_min_ack_delay ≤ max(rtt, default)` -/
-theorem candidate_max_ack_delay_partial (s : State) (rtt : Nat) (cfg peerMin : Option Nat) :
-    candidateMaxAckDelay s rtt cfg peerMin = none ↔
-      ¬ (minAckDelayNs peerMin ≤ Nat.max rtt Gen.minAutomaticAckDelayNs) :=
-  candidate_none_iff s rtt cfg peerMin
-
-/-- when it does not panic the requested delay lies in `[peer min_ack_delay, max(rtt, 25 ms)]` -/
-theorem candidate_max_ack_delay_range (s : State) (rtt : Nat) (cfg peerMin : Option Nat) (d : Nat)
-    (h : candidateMaxAckDelay s rtt cfg peerMin = some d) :
-    minAckDelayNs peerMin ≤ d ∧ d ≤ Nat.max rtt Gen.minAutomaticAckDelayNs :=
-  candidate_range s rtt cfg peerMin d h
-
-/-- `should_send_ack_frequency` (whatever the f32 comparison yields) panics exactly when an ACK_FREQUENCY frame was
-    sent before and the same guard fails -/
-theorem should_send_ack_frequency_partial (fdec : Nat → Nat → Bool) (s : State) (rtt : Nat) (cfg peerMin : Option Nat) :
-    shouldSendAckFrequency fdec s rtt cfg peerMin = none ↔
-      (s.nextSeq ≠ 0 ∧ ¬ (minAckDelayNs peerMin ≤ Nat.max rtt Gen.minAutomaticAckDelayNs)) :=
-  shouldSend_none_iff fdec s rtt cfg peerMin
+/-- `should_send_ack_frequency` never panics, whatever the f32 comparison yields -/
+theorem should_send_ack_frequency_no_panic (fdec : Nat → Nat → Bool) (s : State) (rtt : Nat) (cfg peerMin : Option Nat) :
+    ∃ b, shouldSendAckFrequency fdec s rtt cfg peerMin = some b :=
+  shouldSend_some fdec s rtt cfg peerMin
 
 /-- `ack_frequency_received` is total (no panic outcome exists) and its result is decided exactly: a sequence number
     not above the highest seen is ignored; otherwise a requested delay below TIMER_GRANULARITY is PROTOCOL_VIOLATION;
@@ -251,18 +225,24 @@ theorem ack_frequency_received_sequence (s : State) (thr : Nat × Nat) (seq aet 
       (ackFrequencyReceived s thr seq aet req reord).2.1 = (aet, reord) ∧ req * 1000 ≥ Gen.timerGranularityNs) :=
   recv_sequence s thr seq aet req reord
 
-/-- over ALL event sequences — any ACK_FREQUENCY frames, any acknowledged packet numbers, PTO queries, and
-    `poll_transmit`s at rtts satisfying the guard — no panic (fewer than 2^62 polls: `next_sequence_number`) -/
-theorem ackfreq_no_panic_partial (fdec : Nat → Nat → Bool) (s : State) (e : Env) (ops : List AckFrequency.Op)
-    (hg : OpsGuard e.peerMinAckDelay ops) (hn : s.nextSeq + ops.length ≤ 2^62) :
+/-- over ALL event sequences — any ACK_FREQUENCY frames, any acknowledged packet numbers, PTO queries and
+    `poll_transmit`s at ANY rtt, for any peer parameters and local config — no panic (fewer than 2^62 polls:
+    the `assert!` of `next_sequence_number`) -/
+theorem ackfreq_no_panic (fdec : Nat → Nat → Bool) (s : State) (e : Env) (ops : List AckFrequency.Op)
+    (hn : s.nextSeq + ops.length ≤ 2^62) :
     ∃ r, AckFrequency.run fdec s e ops = some r :=
-  run_some fdec ops s e hg (by simp only [varIntMax]; omega)
+  run_some fdec ops s e (by simp only [varIntMax]; omega)
 
--- non-vacuity: guard satisfied (2 ms ≤ max(100 ms, 25 ms)) / the witness reaches `panic`
+-- non-vacuity: the old F1 witness (peer min_ack_delay 500 ms, rtt 100 ms) now yields the peer's minimum, and a
+-- poll with it sends the frame
+example : candidateMaxAckDelay { AckFrequency.new 25000000 with peerMaxAckDelay := 1000000000 } 100000000 none (some 500000)
+    = some 500000000 := by decide
 example : candidateMaxAckDelay { AckFrequency.new 25000000 with peerMaxAckDelay := 1000000000 } 100000000 none (some 2000)
     = some 100000000 := by decide
 example : AckFrequency.poll (fun _ _ => true) { AckFrequency.new 25000000 with peerMaxAckDelay := 1000000000 }
-    ⟨none, some 500000, (1, 1)⟩ 100000000 7 = none := by decide
+    ⟨none, some 500000, (1, 1)⟩ 100000000 7 =
+    some { AckFrequency.new 25000000 with peerMaxAckDelay := 1000000000, nextSeq := 1, inFlight := some (7, 500000000) } := by
+  decide
 
 end ackfreq
 
